@@ -14,7 +14,8 @@ EXTENDS MC_Ops
 
 ActPlans(par, ch, fr) ==
   LET base == Run(Begin(par, ch, fr, NoFault, Strict, Asrt)) IN
-  {Acting(k, m, w) : k \in 1..base.hc, m \in Node, w \in Node \cup {Nil}}
+  UNION {{Acting(k, m, w, "sp", r) : m \in Node, w \in Node \cup {Nil}} \cup {Acting(k, m, Nil, "dc", r) : m \in Node}
+         : k \in 1..base.hc, r \in BOOLEAN}
 
 ReObsOf(par, ch, fr, fp, r) ==
   [k |-> CallKind(fr.pc), n |-> fr.n, v |-> fr.v, xs |-> fr.xs, bad |-> fr.bad,
